@@ -1,6 +1,6 @@
 (* C16Analyse.v — which archive directories become which job: the analysis loop shared by the zip
-   and the tar analyser maps exactly the job roots, provided the roots are prefix-free in the sense
-   the respective skipping test uses (str.startswith for zip = F6, dirname-membership for tar). *)
+   and the tar analyser maps exactly the job roots, provided no root lies below another one in the
+   sense the respective skipping test uses (is_below for zip, dirname-membership for tar). *)
 From Coq Require Import String Ascii.
 From SV Require Import Base Json MD5 Canon Export CorrC16 C16Frame.
 Local Open Scope N_scope.
@@ -140,10 +140,10 @@ Section Analyse.
   Qed.
 End Analyse.
 
-(* ------------------------------------------------------------------ zip: str.startswith skipping *)
+(* ------------------------------------------------------------------ zip: is_below skipping *)
 Theorem zip_mapping_exact : forall o sch ms dst0 (roots : list (str * json)) names,
-  (* F6 lives in this hypothesis: no job root is a STRING prefix of another one *)
-  (forall r r', In r (List.map fst roots) -> In r' (List.map fst roots) -> startswith r r' = true -> r = r') ->
+  (* no job root lies in or below another job root (whole path components: [zip_under] = is_below) *)
+  (forall r r', In r (List.map fst roots) -> In r' (List.map fst roots) -> zip_under r r' = true -> r = r') ->
   NoDup (List.map fst roots) ->
   (forall r sp, In (r, sp) roots -> arch_schema_fn o sch (zip_read_sp o ms) r = ROk (Some sp)) ->
   (forall x, ~ In x (List.map fst roots) -> arch_schema_fn o sch (zip_read_sp o ms) x = ROk None) ->
@@ -159,7 +159,7 @@ Proof.
   - intros s [].
   - intros done skip r Hinv Hr Hdone. destruct (existsb (zip_under r) skip) eqn:E; auto.
     apply existsb_exists in E. destruct E as [s [Hs Hu]]. destruct (Hinv s Hs) as [Hsr Hsd].
-    unfold zip_under in Hu. rewrite (Hpf r s Hr Hsr Hu) in Hdone. contradiction.
+    rewrite (Hpf r s Hr Hsr Hu) in Hdone. contradiction.
   - intros done skip r Hinv Hr s [<-|Hs]; [split; [auto|left; auto]|].
     destruct (Hinv s Hs). split; auto. right. auto.
   - intros done skip x Hinv _ s Hs. destruct (Hinv s Hs). split; auto. right. auto.
